@@ -100,8 +100,14 @@ def variant_for(ops, i):
     return VARIANTS[(i + len(ops) + sum(ALPHABET.index(o) for o in ops[:i + 1])) % len(VARIANTS)]
 
 
-def start_wavefront(t):
+def start_wavefront(t, blocked=False):
     w = lentil.Wavefront(WL, pixelscale=DX, focal_length=Z)
+    if blocked:
+        # two generic apertures with disjoint supports: no field is left, the type is still 'none'
+        a1, a2 = np.zeros((N, N)), np.zeros((N, N))
+        a1[:N // 2, :N // 2] = 1
+        a2[N // 2:, N // 2:] = 1
+        w = w * lentil.Plane(amplitude=a1) * lentil.Plane(amplitude=a2)
     if t == "none":
         return w
     w = w * lentil.Pupil(amplitude=np.ones((N, N)), opd=np.zeros((N, N)), pixelscale=DX, focal_length=Z)
@@ -126,12 +132,15 @@ def snap_p(p):
             np.asarray(p.mask).tobytes(), len(p.tilt), p.pixelscale)
 
 
-def run_program(start, ops, ctx=None, variants=None):
-    with lentil_call("C08.start", f"start wavefront of type {start}"):
-        w = start_wavefront(start)
+def run_program(start, ops, ctx=None, variants=None, blocked=False):
+    with lentil_call("C08.start", f"start wavefront of type {start}{' (blocked)' if blocked else ''}"):
+        w = start_wavefront(start, blocked)
+    if str(w.ptype) != start:
+        raise Violation("C08.start.type", f"{'blocked ' if blocked else ''}start wavefront has type '{w.ptype}', "
+                                          f"expected '{start}'")
     t = start
     has_tilt = False
-    shaped = start != "none"
+    shaped = start != "none" or blocked
     n_refused = n_prop = 0
     for i, op in enumerate(ops):
         where = f"step {i} ({op}) on a {t} wavefront [program {start}: {' '.join(ops[:i + 1])}]"
@@ -214,7 +223,8 @@ def run_program(start, ops, ctx=None, variants=None):
         if snap_p(plane)[:4] != before_p[:4]:
             raise Violation("C08.multiply.mutates", f"{where}: multiplication changed the plane")
         w, t = new, expect
-        has_tilt = has_tilt or adds_tilt
+        # tilt is metadata of the fields: a wavefront that has no field left (blocked) has nothing to carry it
+        has_tilt = has_tilt or (adds_tilt and len(new.data) > 0)
         shaped = shaped or op in ("class:Pupil", "class:Image", "ptype:pupil", "ptype:image")
     if ctx is not None:
         ctx.tag(f"start:{start}", f"len:{min(len(ops), 6)}", "has_refusal" if n_refused else None,
@@ -239,10 +249,14 @@ def programs_enum(case, ctx):
 
 @hyp("C08", "programs_long", lambda tier: st.fixed_dictionaries(
         {"start": st.sampled_from(ptype_doc.WTYPES),
-         "ops": st.lists(st.sampled_from(ALPHABET), min_size=5, max_size=30)}),
-     "drawn programs of length 5..30", examples=(300, 1500))
+         "ops": st.lists(st.sampled_from(ALPHABET), min_size=5, max_size=30),
+         "blocked": st.sampled_from([False, False, False, True])}),
+     "drawn programs of length 5..30 (one in four from a wavefront that two disjoint apertures have emptied)",
+     examples=(300, 1500))
 def programs_long(case, ctx):
-    run_program(case["start"], case["ops"], ctx)
+    run_program(case["start"], case["ops"], ctx, blocked=case.get("blocked", False))
+    if case.get("blocked"):
+        ctx.tag("blocked_start")
 
 
 def _enum_variants(tier):
@@ -253,6 +267,8 @@ def _enum_variants(tier):
             for v in VARIANTS:
                 for second in (None, "class:Tilt", "prop:dft"):
                     yield {"start": t, "op": op, "variant": v, "then": second}
+                    if v == "constructed":
+                        yield {"start": t, "op": op, "variant": v, "then": second, "blocked": True}
 
 
 @enum("C08", "plane_variants", _enum_variants,
@@ -260,8 +276,8 @@ def _enum_variants(tier):
       "every wavefront type (optionally followed by a Tilt plane or a propagation)", exhaustive_tiers=("quick", "thorough"))
 def plane_variants(case, ctx):
     ops = [case["op"]] + ([case["then"]] if case["then"] else [])
-    ctx.tag("variant:" + case["variant"])
-    run_program(case["start"], ops, ctx, variants=[case["variant"]] * len(ops))
+    ctx.tag("variant:" + case["variant"], "blocked_start" if case.get("blocked") else None)
+    run_program(case["start"], ops, ctx, variants=[case["variant"]] * len(ops), blocked=case.get("blocked", False))
     ctx.nontrivial_if(case["variant"] != "constructed")
 
 
